@@ -19,6 +19,7 @@
 #define PFX_MAX_PROBES 48
 #define PFX_MAX_SINKS  12
 #define PFX_TRACK_PER_PROBE 8
+#define PFX_MAX_LODGED 48
 
 /* ---- event log (recording probes) ---- */
 struct pfx_event {
@@ -82,8 +83,9 @@ struct pfx_sink {
     uint8_t req_policy;
     struct uref *flow_def;  /* last accepted definition (dup) */
     bool last_rejected;     /* the last set_flow_def answer was a rejection */
-    struct uchain requests; /* lodged requests (struct urequest via uchain) when HOLD */
-    int nrequests;
+    struct uchain requests; /* unused (kept for layout): a request's uchain belongs to the upstream pipe (urequest.h), a sink must not link it */
+    int nrequests;          /* number of lodged requests when HOLD */
+    struct urequest *lodged[PFX_MAX_LODGED];   /* the lodged requests when HOLD, in registration order */
     unsigned inputs, flowdefs;
 };
 
